@@ -77,6 +77,77 @@ Qed.
 Lemma map_task_cans (l : list N) at_ : map k_task (map (fun x => Can x at_) l) = l.
 Proof. induction l as [|x r IH]; cbn [map k_task]; [reflexivity|]. rewrite IH. reflexivity. Qed.
 
+
+(* ---- admission order: "every task of A was admitted (s_e) before every task of B" ------------- *)
+
+Definition before (subs : list sub) (A B : list N) : Prop :=
+  forall sa sc, In sa subs -> In sc subs -> In (s_task sa) A -> In (s_task sc) B -> s_e sa < s_e sc.
+
+Lemma before_incl subs A B A' B' : incl A' A -> incl B' B -> before subs A B -> before subs A' B'.
+Proof. intros HA HB H sa sc Ha Hc Ia Ic. apply H; auto. Qed.
+
+Lemma before_nil_l subs B : before subs [] B.
+Proof. intros sa sc _ _ []. Qed.
+
+Lemma before_nil_r subs A : before subs A [].
+Proof. intros sa sc _ _ _ []. Qed.
+
+Lemma before_app_l subs A1 A2 B : before subs A1 B -> before subs A2 B -> before subs (A1 ++ A2) B.
+Proof. intros H1 H2 sa sc Ha Hc Ia Ic. apply in_app_or in Ia. destruct Ia; [apply H1|apply H2]; auto. Qed.
+
+Lemma before_app_r subs A B1 B2 : before subs A B1 -> before subs A B2 -> before subs A (B1 ++ B2).
+Proof. intros H1 H2 sa sc Ha Hc Ia Ic. apply in_app_or in Ic. destruct Ic; [apply H1|apply H2]; auto. Qed.
+
+(* a new Submit record whose task is in neither list changes nothing *)
+Lemma before_cons_fresh subs sb A B : ~ In (s_task sb) A -> ~ In (s_task sb) B ->
+  before subs A B -> before (sb :: subs) A B.
+Proof.
+  intros HA HB H sa sc [<-|Ha] [<-|Hc] Ia Ic; try contradiction. apply H; assumption.
+Qed.
+
+(* the queue in admission order *)
+Definition qsorted (subs : list sub) (q : list N) : Prop :=
+  forall l1 a l2, q = l1 ++ a :: l2 -> before subs [a] l2.
+
+Lemma qsorted_tail subs a q : qsorted subs (a :: q) -> qsorted subs q.
+Proof. intros H l1 a' l2 E. apply (H (a :: l1) a' l2). rewrite E. reflexivity. Qed.
+
+Lemma qsorted_split subs pre q : qsorted subs (pre ++ q) -> before subs pre q /\ qsorted subs q.
+Proof.
+  induction pre as [|a pre IH]; cbn [app]; intro H.
+  - split; [apply before_nil_l|exact H].
+  - destruct (IH (qsorted_tail _ _ _ H)) as (B1 & B2). split; [|exact B2].
+    change (a :: pre) with ([a] ++ pre). apply before_app_l; [|exact B1].
+    eapply before_incl; [apply incl_refl| |apply (H [] a (pre ++ q) eq_refl)].
+    intros y Hy. apply in_or_app. right; exact Hy.
+Qed.
+
+(* admission of a fresh task x (newest stamp) at the end of B *)
+Lemma before_enqueue subs sbn x A B B' : s_task sbn = x -> ~ In x A ->
+  (forall sb, In sb subs -> s_task sb <> x) -> (forall sb, In sb subs -> s_e sb < s_e sbn) ->
+  (forall y, In y B' -> In y B \/ y = x) ->
+  before subs A B -> before (sbn :: subs) A B'.
+Proof.
+  intros Et HA Hfresh Hlt HB H sa sc [<-|Ha] [<-|Hc] Ia Ic.
+  - rewrite Et in Ia. contradiction.
+  - rewrite Et in Ia. contradiction.
+  - apply Hlt. exact Ha.
+  - destruct (HB _ Ic) as [Ic'|E]; [apply H; assumption|]. exfalso. apply (Hfresh sc Hc E).
+Qed.
+
+Lemma qsorted_snoc subs sbn x q : s_task sbn = x -> ~ In x q ->
+  (forall sb, In sb subs -> s_task sb <> x) -> (forall sb, In sb subs -> s_e sb < s_e sbn) ->
+  qsorted subs q -> qsorted (sbn :: subs) (q ++ [x]).
+Proof.
+  intros Et Hq Hfresh Hlt Hs l1 a l2 E.
+  destruct l2 as [|z l2'] using rev_ind; [apply before_nil_r|]. clear IHl2'.
+  rewrite app_comm_cons, app_assoc in E. apply app_inj_tail in E. destruct E as [E Ez]. subst z.
+  apply (before_enqueue subs sbn x [a] l2'); auto.
+  - intros [<-|[]]. apply Hq. rewrite E. apply in_or_app. right. left. reflexivity.
+  - intros y Hy. apply in_app_or in Hy. destruct Hy as [Hy|[<-|[]]]; auto.
+  - apply (Hs l1 a l2'). exact E.
+Qed.
+
 Section DPoolProof.
 Variable cf : cfg.
 
@@ -177,7 +248,13 @@ Record DInvB (b : N) (s : dstate) : Prop := {
              exists sb, In sb (d_subs s) /\ s_task sb = x /\ s_res sb = ROk /\ d_cb s < s_e sb;
   j_close : close_inv b s;
   j_cb : d_cb s <= b;
-  j_wk : d_wk s <> [] }.
+  j_wk : d_wk s <> [];
+  (* one FIFO queue, one dispatcher: what was taken earlier was admitted earlier *)
+  j_fifo1 : before (d_subs s) (held (d_wk s) ++ map r_task (d_runs s) ++ map k_task (d_cans s))
+                              (hand_of (d_disp s) ++ d_lost s ++ d_queue s);
+  j_fifo2 : before (d_subs s) (hand_of (d_disp s) ++ d_lost s) (d_queue s);
+  j_qsorted : qsorted (d_subs s) (d_queue s);
+  j_lost_exit : d_lost s <> [] -> d_disp s = DExit }.
 
 Definition DInv (s : dstate) : Prop := DInvB (d_now s) s.
 
@@ -317,6 +394,12 @@ Proof.
     repeat split; auto. exists ce. repeat split; auto.
     + intros sb [<-|Hin]; [prj; intro Er; congruence|apply H3'; exact Hin].
     + intros t0 st0. rewrite nth_set_nth. destruct (Nat.eqb_spec t t0); [discriminate|apply H4'].
+  - apply before_cons_fresh; auto; prj; intro Hin; apply Hfresh; apply okset_in; apply j_pl_ok0;
+      rewrite !in_app_iff in *; tauto.
+  - apply before_cons_fresh; auto; prj; intro Hin; apply Hfresh; apply okset_in; apply j_pl_ok0;
+      rewrite !in_app_iff in *; tauto.
+  - intros l1 a l2 E. apply before_cons_fresh; [| |apply (j_qsorted0 l1 a l2 E)]; prj; intro Hin; apply Hfresh;
+      apply okset_in; apply j_pl_ok0; rewrite E; rewrite !in_app_iff in *; cbn [In] in *; tauto.
 Qed.
 
 Ltac cnt_norm := repeat (progress (rewrite ?map_app, ?map_task_cans, ?map_task_mk_runs, ?cnt_app, ?cnt_cons, ?cnt_nil in * )).
@@ -327,7 +410,7 @@ Lemma inv_ret_ok b s t x st used' : DInvB b s -> b < d_now s -> pc_task (d_pc s 
   DInv (d_ret (d_uq s used' (d_queue s ++ [x])) t x st ROk).
 Proof.
   intros HI Hb Hpc Hpast Hbc. pose proof (inv_mono b (d_now s) s ltac:(lia) HI) as HM.
-  pose proof (j_pcs _ _ HI) as H3. pose proof (j_cb _ _ HI) as Hcb. destruct HM as [ ].
+  pose proof (j_pcs _ _ HI) as H3. pose proof (j_cb _ _ HI) as Hcb. pose proof (j_subs _ _ HI) as H1s. destruct HM as [ ].
   destruct s as [now closed stopped ctxdone used queue pcs disp wk close cb lost subs runs cans clos]. unf.
   destruct (H3 _ _ _ Hpc) as (Hx & Hst & Hfresh).
   assert (Hnew : cnt x (queue ++ hand_of disp ++ held wk ++ map r_task runs ++ map k_task cans ++ lost) = 0%nat).
@@ -360,6 +443,20 @@ Proof.
     repeat split; auto. exists ce. repeat split; auto.
     + intros sb [<-|Hin]; [prj; intros _; apply (H4' t); exact Hpast|apply H3'; exact Hin].
     + intros t0 st0. rewrite nth_set_nth. destruct (Nat.eqb_spec t t0); [discriminate|apply H4'].
+  - apply (before_enqueue subs _ x _ (hand_of disp ++ lost ++ queue)); auto; prj.
+    + intro Hin. apply cnt_notIn in Hnew. apply Hnew. rewrite !in_app_iff in *. tauto.
+    + intros sb Hsb E. apply Hfresh. rewrite <- E. apply in_map. exact Hsb.
+    + intros sb Hsb. destruct (H1s sb Hsb) as (_ & _ & X & _). lia.
+    + intros y Hy. rewrite !in_app_iff in *. cbn [In] in Hy. intuition congruence.
+  - apply (before_enqueue subs _ x _ queue); auto; prj.
+    + intro Hin. apply cnt_notIn in Hnew. apply Hnew. rewrite !in_app_iff in *. tauto.
+    + intros sb Hsb E. apply Hfresh. rewrite <- E. apply in_map. exact Hsb.
+    + intros sb Hsb. destruct (H1s sb Hsb) as (_ & _ & X & _). lia.
+    + intros y Hy. rewrite !in_app_iff in *. cbn [In] in Hy. intuition congruence.
+  - apply qsorted_snoc; auto; prj.
+    + intro Hin. apply cnt_notIn in Hnew. apply Hnew. rewrite !in_app_iff in *. tauto.
+    + intros sb Hsb E. apply Hfresh. rewrite <- E. apply in_map. exact Hsb.
+    + intros sb Hsb. destruct (H1s sb Hsb) as (_ & _ & X & _). lia.
 Qed.
 
 (* the dispatcher changes its program point, hand unchanged *)
@@ -376,6 +473,7 @@ Proof.
   - intros _ Hd Hqn. specialize (He Hd). contradiction.
   - intros _ Hd x Hx. specialize (He Hd). subst queue. destruct Hx.
   - destruct close; auto. destruct j_close0 as (_ & _ & A & _). contradiction.
+  - intro X. exfalso. apply Hne. apply j_lost_exit0. exact X.
 Qed.
 
 (* the dispatcher receives the oldest queued item into its hand *)
@@ -397,15 +495,25 @@ Proof.
   - intros y Hy. apply j_pl_ok0. apply cnt_In. rewrite <- Hcnt. apply cnt_In. exact Hy.
   - intros y Hy. apply cnt_In. rewrite Hcnt. apply cnt_In. apply j_ok_pl0. exact Hy.
   - intros _. rewrite Hh. destruct (hand_of disp); discriminate.
+  - rewrite Hh. eapply before_incl; [apply incl_refl| |exact j_fifo3].
+    intros y Hy. rewrite !in_app_iff in *. cbn [In] in *. tauto.
+  - rewrite Hh. intros sa sc Ha Hc Ia Ic. rewrite !in_app_iff in Ia. cbn [In] in Ia.
+    destruct Ia as [[Ia|[Ia|[]]]|Ia].
+    + apply j_fifo4; auto; [apply in_or_app; left; exact Ia|right; exact Ic].
+    + apply (j_qsorted0 [] x r eq_refl sa sc); auto. left. exact Ia.
+    + apply j_fifo4; auto; [apply in_or_app; right; exact Ia|right; exact Ic].
+  - eapply qsorted_tail. exact j_qsorted0.
+  - intro X. exfalso. apply Hne. apply j_lost_exit0. exact X.
 Qed.
 
 (* cancelTasks: items leave the queue / the hand through the CancelAccepted hook *)
 Lemma inv_cancel b s q' used0 l d' : DInvB b s -> b < d_now s -> d_disp s <> DExit ->
   (forall y, (cnt y q' + cnt y l = cnt y (d_queue s) + cnt y (hand_of (d_disp s)))%nat) ->
+  (exists pre, d_queue s = pre ++ q' /\ incl l (hand_of (d_disp s) ++ pre)) ->
   hand_of d' = [] -> disp_has_hand d' = false -> l <> [] -> ca = true -> d_closed s = true ->
   DInv (d_cancel (d_uq s used0 q') l d').
 Proof.
-  intros HI Hb Hne Hc Hh Hhh Hl Hca Hcl. apply (inv_mono b (d_now s)) in HI; [|lia]. destruct HI as [ ].
+  intros HI Hb Hne Hc Hpre Hh Hhh Hl Hca Hcl. apply (inv_mono b (d_now s)) in HI; [|lia]. destruct HI as [ ].
   destruct s as [now closed stopped ctxdone used queue pcs disp wk close cb lost subs runs cans clos]. unf.
   assert (Hcnt : forall y, cnt y (q' ++ hand_of d' ++ held wk ++ map r_task runs ++ map k_task (map (fun x => Can x now) l ++ cans) ++ lost)
                   = cnt y (queue ++ hand_of disp ++ held wk ++ map r_task runs ++ map k_task cans ++ lost)).
@@ -423,6 +531,22 @@ Proof.
   - intros _. left. split; [exact Hca|]. destruct l; [congruence|discriminate].
   - intros E. congruence.
   - destruct close; auto. destruct j_close0 as (_ & _ & A & _). contradiction.
+  - destruct Hpre as (pre & Eq & Hincl). rewrite Hh, map_app, map_task_cans. cbn [app].
+    assert (Hl0 : lost = []) by (destruct lost; [reflexivity|]; destruct j_lost0 as (X & _); [discriminate|congruence]).
+    subst lost queue. cbn [app] in *. destruct (qsorted_split _ _ _ j_qsorted0) as (Bpq & _).
+    intros sa sc Ha Hc' Ia Ic. rewrite !in_app_iff in Ia.
+    destruct Ia as [Ia|[Ia|[Ia|Ia]]].
+    + apply j_fifo3; auto; rewrite !in_app_iff; tauto.
+    + apply j_fifo3; auto; rewrite !in_app_iff; tauto.
+    + apply Hincl in Ia. apply in_app_or in Ia. destruct Ia as [Ia|Ia].
+      * apply j_fifo4; auto; rewrite !in_app_iff; tauto.
+      * apply Bpq; auto.
+    + apply j_fifo3; auto; rewrite !in_app_iff; tauto.
+  - rewrite Hh. cbn [app].
+    assert (Hl0 : lost = []) by (destruct lost; [reflexivity|]; destruct j_lost0 as (X & _); [discriminate|congruence]).
+    subst lost. apply before_nil_l.
+  - destruct Hpre as (pre & Eq & _). subst queue. apply (qsorted_split _ _ _ j_qsorted0).
+  - intro X. exfalso. destruct (j_lost0 X) as (Y & _). congruence.
 Qed.
 
 (* retryExecutor on ctx.Done without CancelAcceptedOnClose: the batch is released, nothing runs *)
@@ -445,6 +569,8 @@ Proof.
   - discriminate.
   - intros Hb0 _. exfalso. unfold Model.WorkQueue_dpool.cr in Hcr. rewrite Hb0 in Hcr. discriminate.
   - destruct close; auto. destruct j_close0 as (_ & _ & A & _). contradiction.
+  - eapply before_incl; [apply incl_refl| |exact j_fifo3].
+    intros y Hy. cbn [hand_of app] in Hy. rewrite !in_app_iff in *. tauto.
 Qed.
 
 (* pool.Invoke accepts the batch into a free executor slot *)
@@ -472,6 +598,20 @@ Proof.
   - discriminate.
   - destruct close; auto. destruct j_close0 as (_ & _ & A & _). discriminate.
   - apply set_nth_ne.
+  - assert (Hl0 : lost = []) by (destruct lost; [reflexivity|]; exfalso; assert (X : DInvoke h dr = DExit) by (apply j_lost_exit0; discriminate); discriminate).
+    subst lost. cbn [app] in *.
+    assert (Hmem : forall y, In y (held (set_nth i (RGot h) RIdle wk)) -> In y h \/ In y (held wk)).
+    { intros y Hy. apply cnt_In in Hy. pose proof (cnt_held_set_nth y i (RGot h) wk Hi) as E. rewrite Hk in E.
+      cbn [k_items] in E. rewrite cnt_nil in E.
+      destruct (Nat.eq_dec (cnt y h) 0) as [Z|Z]; [right; apply cnt_In; lia|left; apply cnt_In; lia]. }
+    intros sa sc Ha Hc Ia Ic. rewrite !in_app_iff in Ia. destruct Ia as [Ia|Ia].
+    + destruct (Hmem _ Ia) as [Ih|Ih].
+      * apply j_fifo4; auto. rewrite app_nil_r. exact Ih.
+      * apply j_fifo3; auto; rewrite !in_app_iff; tauto.
+    + apply j_fifo3; auto; rewrite !in_app_iff; tauto.
+  - assert (Hl0 : lost = []) by (destruct lost; [reflexivity|]; exfalso; assert (X : DInvoke h dr = DExit) by (apply j_lost_exit0; discriminate); discriminate).
+    subst lost. apply before_nil_l.
+  - intro X. exfalso. assert (Y : DInvoke h dr = DExit) by (apply j_lost_exit0; exact X). discriminate.
 Qed.
 
 (* runBatch enters the handler *)
@@ -496,6 +636,9 @@ Proof.
   - destruct close; auto. destruct j_close0 as (_ & _ & _ & A & _).
     rewrite (all_idle_nth wk i Hi A) in Hk. discriminate.
   - apply set_nth_ne.
+  - eapply before_incl; [|apply incl_refl|exact j_fifo3].
+    intros y Hy. rewrite !in_app_iff in *. destruct Hy as [Hy|Hy]; [left|right; exact Hy].
+    apply cnt_In. rewrite <- Hcnt. apply cnt_In. exact Hy.
 Qed.
 
 (* the handler returns *)
@@ -524,6 +667,12 @@ Proof.
   - destruct close; auto. destruct j_close0 as (_ & _ & _ & A & _).
     rewrite (all_idle_nth wk i Hi A) in Hk. discriminate.
   - apply set_nth_ne.
+  - eapply before_incl; [|apply incl_refl|exact j_fifo3].
+    intros y Hy. rewrite map_app, map_task_mk_runs in Hy. rewrite !in_app_iff in *.
+    pose proof (cnt_held_set_nth y i RIdle wk Hi) as E. rewrite Hk in E. cbn [k_items] in E. rewrite cnt_nil in E.
+    destruct Hy as [Hy|[[Hy|Hy]|Hy]]; auto.
+    + left. apply cnt_In. apply cnt_In in Hy. lia.
+    + left. apply cnt_In. apply cnt_In in Hy. lia.
 Qed.
 
 (* Close *)
@@ -642,7 +791,9 @@ Ltac d_fin Hn Hlt :=
         | cbn [disp_late]; let E9 := fresh in intro E9; apply Hlt; exact E9
         | intros; apply Hlt; reflexivity
         | cbn [hand_of length]; rewrite ?app_length; cbn [length]; lia
-        | let y := fresh "y" in intro y; cbn [hand_of]; rewrite ?cnt_cons, ?cnt_nil; lia ].
+        | let y := fresh "y" in intro y; cbn [hand_of]; rewrite ?cnt_cons, ?cnt_nil; lia
+        | exists []; cbn [app hand_of]; split; [reflexivity|rewrite ?app_nil_r; apply incl_refl]
+        | eexists [_]; cbn [app hand_of]; split; [reflexivity|apply incl_refl] ].
 Ltac d_take s Hd Hn Hlt x r :=
   apply (inv_mono (d_now s)); [bnd|]; apply (inv_disp_take _ _ x r); auto; rewrite ?Hd; try d_fin Hn Hlt.
 Ltac d_pcx s Hd Hn Hlt :=
@@ -754,6 +905,8 @@ Proof.
   all: try match goal with H : okset [] _ |- _ => destruct H as (sb & [] & _) end.
   all: try (exfalso; congruence).
   all: try (repeat split; reflexivity).
+  all: try (intros sa sc []; fail).
+  all: try (intros l1 a l2 E; destruct l1; discriminate).
   destruct (N.to_nat (c_workers cf)) eqn:E; [lia|]. discriminate.
 Qed.
 
